@@ -86,9 +86,19 @@ func runFunction(vc *VC, u *Universe, pi *PkgInfo, fc *FuncContract, fn *ssa.Fun
 		fr.env[p] = v
 		fr.params = append(fr.params, v)
 	}
+	var cells []*Term
 	for _, fv := range fn.FreeVars {
 		v := x.havocParam(&st, fv.Type(), "fv."+fv.Name())
 		fr.env[fv] = v
+		// go/ssa captures variables by reference: a free variable is the address of the enclosing function's
+		// variable cell, which is never nil and differs from every other captured cell
+		if v.K == KPtr && fn.Parent() != nil && isCapturedCell(fn.Parent(), fv) {
+			vc.assume(Not(Eq(v.Loc.Root, nilRef)))
+			for _, c := range cells {
+				vc.assume(Not(Eq(v.Loc.Root, c)))
+			}
+			cells = append(cells, v.Loc.Root)
+		}
 	}
 	fr.ghosts = map[string]Value{}
 	for _, g := range fc.GhostVars {
@@ -316,6 +326,16 @@ func (x *Exec) frameObligations(fr *Frame, env *CEnv, fin *State) {
 		e := me
 		if e.Kind == "id" && e.Name == "maps" {
 			mapsFree = true
+			continue
+		}
+		if e.Kind == "call" && e.Name == "stream" && len(e.Args) == 1 {
+			saved := env.st
+			env.st = &fr.entry
+			w := env.eval(e.Args[0])
+			env.st = saved
+			for _, cn := range []string{"Io.out", "Io.outlen", "Io.pos"} {
+				allow[cn] = append(allow[cn], allowed{root: w.X})
+			}
 			continue
 		}
 		if e.Kind == "field" && e.Name == "*" {
